@@ -1746,3 +1746,174 @@ func ruleFeeSumCumulative(c *Ctx) {
 	}
 	c.Floor("success exits of checkBalance", n, 1)
 }
+
+// ---------------------------------------------------------------------------
+// vm-bytes-retained (C09, C04): Element.Bytes()/BytesOrNil() and Item.TryBytes() hand out the item's own memory; for
+// a Buffer - what a contract's []byte compiles to - that memory stays writable by the contract. A system call or a
+// native method that *keeps* such a slice beyond the call (in an iterator, a struct, a map) sees it change under its
+// feet: a storage iterator created with a buffer prefix reports keys that are not in the store once the contract
+// writes to the buffer. Kept bytes are cloned first. "Keeps" is summarised per function: a []byte parameter that is
+// put un-cloned into a composite literal, a field, a map or an appended slice.
+func ruleVMBytesRetained(c *Ctx, pkgs ...string) {
+	want := map[string]bool{}
+	for _, p := range pkgs {
+		want[p] = true
+	}
+	srcSyms := map[string]bool{"pkg/vm.(Element).Bytes": true, "pkg/vm.(Element).BytesOrNil": true, "pkg/vm/stackitem.(Item).TryBytes": true}
+	isBytes := func(t types.Type) bool {
+		if t == nil {
+			return false
+		}
+		s, ok := t.Underlying().(*types.Slice)
+		if !ok {
+			return false
+		}
+		b, ok := s.Elem().Underlying().(*types.Basic)
+		return ok && b.Kind() == types.Byte
+	}
+	// keeps(fd) -> indices of []byte parameters the function keeps
+	type keepInfo struct{ where map[int]string }
+	keeps := map[*types.Func]*keepInfo{}
+	var fds []*FuncDecl
+	for _, fd := range c.P.AllFuncDecls() {
+		if fd.Decl.Body != nil && want[pkgRel(fd.Pkg.Types)] {
+			fds = append(fds, fd)
+		}
+	}
+	keptUse := func(fd *FuncDecl, o types.Object) string {
+		info := fd.Pkg.TypesInfo
+		res := ""
+		var stack []ast.Node
+		ast.Inspect(fd.Decl.Body, func(x ast.Node) bool {
+			if x == nil {
+				stack = stack[:len(stack)-1]
+				return true
+			}
+			stack = append(stack, x)
+			id, ok := x.(*ast.Ident)
+			if !ok || info.ObjectOf(id) != o || len(stack) < 2 || res != "" {
+				return true
+			}
+			switch p := stack[len(stack)-2].(type) {
+			case *ast.KeyValueExpr:
+				if p.Value == ast.Expr(id) {
+					// a literal built only to be passed to a call is the callee's business (dao.SeekAsync clones the
+					// prefix of the range it is given); a literal that is returned, assigned or stored is kept
+					passed := false
+					if len(stack) >= 4 {
+						if cl, ok := stack[len(stack)-3].(*ast.CompositeLit); ok {
+							if call, ok := stack[len(stack)-4].(*ast.CallExpr); ok {
+								for _, a := range call.Args {
+									if a == ast.Expr(cl) {
+										passed = true
+									}
+								}
+							}
+						}
+					}
+					if !passed {
+						res = "stored in a composite literal (" + types.ExprString(p.Key) + ")"
+					}
+				}
+			case *ast.AssignStmt:
+				for i, r := range p.Rhs {
+					if r == ast.Expr(id) && i < len(p.Lhs) {
+						switch ast.Unparen(p.Lhs[i]).(type) {
+						case *ast.SelectorExpr, *ast.IndexExpr:
+							res = "stored into " + types.ExprString(p.Lhs[i])
+						}
+					}
+				}
+			case *ast.CallExpr:
+				if fid, ok := ast.Unparen(p.Fun).(*ast.Ident); ok {
+					if b, ok := info.ObjectOf(fid).(*types.Builtin); ok && b.Name() == "append" && len(p.Args) > 1 {
+						for _, a := range p.Args[1:] {
+							if a == ast.Expr(id) && !p.Ellipsis.IsValid() {
+								res = "appended as an element"
+							}
+						}
+					}
+				}
+			}
+			return true
+		})
+		return res
+	}
+	for _, fd := range fds {
+		sig := fd.Obj.Type().(*types.Signature)
+		ki := &keepInfo{where: map[int]string{}}
+		for i := 0; i < sig.Params().Len(); i++ {
+			pv := sig.Params().At(i)
+			if !isBytes(pv.Type()) {
+				continue
+			}
+			if w := keptUse(fd, pv); w != "" {
+				ki.where[i] = w
+			}
+		}
+		if len(ki.where) > 0 {
+			keeps[fd.Obj] = ki
+		}
+	}
+	nsrc := 0
+	for _, fd := range fds {
+		info := fd.Pkg.TypesInfo
+		f := c.P.NewFuncCFG(fd)
+		// locals bound directly to VM-owned bytes
+		owned := map[types.Object]ast.Node{}
+		ast.Inspect(fd.Decl.Body, func(x ast.Node) bool {
+			as, ok := x.(*ast.AssignStmt)
+			if !ok || len(as.Lhs) != len(as.Rhs) {
+				return true
+			}
+			for i, r := range as.Rhs {
+				call, ok := ast.Unparen(r).(*ast.CallExpr)
+				if !ok || !srcSyms[f.calleeSym(call)] {
+					continue
+				}
+				if id, ok := as.Lhs[i].(*ast.Ident); ok {
+					if o := info.ObjectOf(id); o != nil {
+						owned[o] = as
+					}
+				}
+			}
+			return true
+		})
+		for o, at := range owned {
+			nsrc++
+			key := fmt.Sprintf("vm-bytes-retained.%s.%s", FuncKey(fd.Obj), o.Name())
+			bad := keptUse(fd, o)
+			if bad == "" {
+				// handed to a function that keeps the parameter?
+				ast.Inspect(fd.Decl.Body, func(x ast.Node) bool {
+					call, ok := x.(*ast.CallExpr)
+					if !ok || bad != "" {
+						return true
+					}
+					callee := calleeFunc(info, call)
+					if callee == nil {
+						return true
+					}
+					ki := keeps[callee.Origin()]
+					if ki == nil {
+						return true
+					}
+					for i, a := range call.Args {
+						if id, ok := ast.Unparen(a).(*ast.Ident); ok && info.ObjectOf(id) == o {
+							if w, ok := ki.where[i]; ok {
+								bad = "handed to " + FuncKey(callee) + ", where it is " + w
+							}
+						}
+					}
+					return true
+				})
+			}
+			if bad != "" {
+				c.Fail(key, c.P.Pos(at.Pos()), fmt.Sprintf("%s keeps bytes that belong to a VM item (%s is %s): for a Buffer argument the contract can rewrite them while they are in use", FuncKey(fd.Obj), o.Name(), bad))
+			} else {
+				c.OK(key, c.P.Pos(at.Pos()), "VM-owned bytes are used within the call only, or cloned before they are kept")
+			}
+		}
+	}
+	c.Floor("locals bound to VM-owned bytes", nsrc, 10)
+}
